@@ -142,6 +142,7 @@ def _worker(args):
     out = []
     for s in scripts:
         out.append(plugins.run_script(s))
+    common.shutdown_loky()
     return out
 
 
